@@ -1298,10 +1298,823 @@ pub mod gff {
     }
 }
 
+// ---------------------------------------------------------------------------
+// large-scale sub-checks (C13/large-*): every size parameter of the BED / GFF writers and readers is pushed
+// across the threshold ladder 255..257, 511..513, ... 2^20+1 (oracles::scale::c111213).
+//
+// A case holds parameters only; records are a fixed function of (seed, index).  The scaled parameter is `what`:
+//   BedRecords  number of BED records          BedCols     number of auxiliary BED columns
+//   BedValue    length of one BED column value  Comments    number of comment lines / length of one comment line
+//   GffRecords  number of GFF records           GffKeys     number of attribute keys of one record
+//   GffValues   number of values of one key     GffValueLen length of one attribute value (or key)
+//   GffColLen   length of a text column         FileHist    histories on ONE path (Writer::to_file / Reader::from_file)
+//   BadLine     index of the one malformed line in a long file (bad number, invalid phase, wrong column count)
+pub mod large {
+    use super::gff::Dialect;
+    use super::*;
+    use crate::oracles::io::ChunkedReader;
+    use crate::oracles::scale::c111213::{band_label, intern, ladder, mix, publish, Sm, TmpFiles, CENTRES};
+    use bio::io::{bed as lbed, gff as lgff};
+    use std::convert::TryInto;
+    use std::io::{Cursor, Read};
+    use std::rc::Rc;
+
+    #[derive(Serialize, Deserialize, Debug, Clone, Copy, PartialEq, Eq)]
+    pub enum What {
+        BedRecords,
+        BedCols,
+        BedValue,
+        Comments,
+        GffRecords,
+        GffKeys,
+        GffValues,
+        GffValueLen,
+        GffColLen,
+        FileHist,
+        BadLine,
+    }
+
+    #[derive(Serialize, Deserialize, Debug, Clone, Copy, PartialEq, Eq)]
+    pub enum Pat {
+        Random,
+        /// every value / record the same
+        Equal,
+        /// decimal numbers in ascending order (a reordering or a lost value is visible)
+        Ascending,
+        Descending,
+    }
+
+    #[derive(Serialize, Deserialize, Debug, Clone, Copy, PartialEq, Eq)]
+    pub enum Src {
+        /// `Reader::new(&bytes[..])`
+        Slice,
+        /// `Reader::new(Cursor<Vec<u8>>)`
+        Cursor,
+        /// `Reader::new(chunked double)` with read() pieces of at most n bytes
+        Chunked,
+        /// written with `Writer::to_file`, read with `Reader::from_file`
+        File,
+    }
+
+    #[derive(Serialize, Deserialize, Debug, Clone)]
+    pub struct LCase {
+        pub what: What,
+        pub n: usize,
+        pub aux: usize,
+        pub pat: Pat,
+        pub seed: u64,
+        pub dialect: Dialect,
+        pub src: Src,
+    }
+
+    fn gff_type(d: Dialect) -> lgff::GffType {
+        match d {
+            Dialect::GFF3 => lgff::GffType::GFF3,
+            Dialect::GFF2 => lgff::GffType::GFF2,
+            Dialect::GTF2 => lgff::GffType::GTF2,
+        }
+    }
+
+    const SAFE: &[u8] = b"abcdefghijklmnopqrstuvwxyzABCDEFGHIJKLMNOPQRSTUVWXYZ0123456789_.:-";
+    const ALNUM: &[u8] = b"abcxyzABCXYZ0189";
+
+    /// `n` characters: first and last alphanumeric; the inner ones from SAFE, optionally mixed with `extra`
+    /// (every fifth position on average) or with multi-byte characters (`utf8`: the length is then in bytes)
+    fn text(n: usize, seed: u64, extra: &[u8], utf8: bool) -> String {
+        if n == 0 {
+            return String::new();
+        }
+        let mut g = Sm::new(seed, 0x7e87);
+        let mut v: Vec<u8> = Vec::with_capacity(n);
+        v.push(ALNUM[g.below(ALNUM.len() as u64) as usize]);
+        while v.len() + 1 < n {
+            let room = n - 1 - v.len();
+            let x = g.next();
+            if utf8 && x % 16 == 0 && room >= 2 {
+                v.extend_from_slice("é".as_bytes());
+            } else if utf8 && x % 16 == 1 && room >= 3 {
+                v.extend_from_slice("中".as_bytes());
+            } else if !extra.is_empty() && x % 5 == 2 {
+                v.push(extra[((x >> 8) % extra.len() as u64) as usize]);
+            } else {
+                v.push(SAFE[((x >> 8) % SAFE.len() as u64) as usize]);
+            }
+        }
+        if v.len() < n {
+            v.push(ALNUM[g.below(ALNUM.len() as u64) as usize]);
+        }
+        String::from_utf8(v).expect("valid UTF-8")
+    }
+
+    /// the i-th of n short values under a pattern
+    fn val(pat: Pat, seed: u64, i: usize, n: usize) -> String {
+        match pat {
+            Pat::Equal => "v".to_string(),
+            Pat::Ascending => format!("{}", i),
+            Pat::Descending => format!("{}", n - i),
+            Pat::Random => {
+                let x = mix(seed ^ (i as u64).wrapping_mul(0x9e37));
+                text(1 + (x % 8) as usize, x, b"", false)
+            }
+        }
+    }
+
+    fn exc(s: &str) -> String {
+        if s.len() <= 80 {
+            format!("{:?}", s)
+        } else {
+            let mut a = 40;
+            while !s.is_char_boundary(a) {
+                a -= 1;
+            }
+            let mut b = s.len() - 40;
+            while !s.is_char_boundary(b) {
+                b += 1;
+            }
+            format!("{:?}..{:?} ({} bytes)", &s[..a], &s[b..], s.len())
+        }
+    }
+
+    fn what_name(w: What) -> &'static str {
+        match w {
+            What::BedRecords => "number of BED records",
+            What::BedCols => "number of auxiliary BED columns",
+            What::BedValue => "length of a BED column value",
+            What::Comments => "comment lines (count / length)",
+            What::GffRecords => "number of GFF records",
+            What::GffKeys => "number of attribute keys",
+            What::GffValues => "number of values of one key",
+            What::GffValueLen => "length of an attribute value / key",
+            What::GffColLen => "length of a GFF text column",
+            What::FileHist => "file history: records of the long file",
+            What::BadLine => "index of the malformed line",
+        }
+    }
+
+    // ---- record lists as functions of the case
+
+    /// provider of the expected records (materialised when small enough)
+    pub struct Many<T> {
+        n: usize,
+        list: Option<Vec<T>>,
+        make: Box<dyn Fn(usize) -> T>,
+    }
+
+    impl<T: Clone> Many<T> {
+        fn new(n: usize, make: Box<dyn Fn(usize) -> T>) -> Many<T> {
+            let list = if n <= 200_000 { Some((0..n).map(|i| make(i)).collect()) } else { None };
+            Many { n, list, make }
+        }
+        fn get(&self, i: usize) -> T {
+            match &self.list {
+                Some(l) => l[i].clone(),
+                None => (self.make)(i),
+            }
+        }
+    }
+
+    fn bed_small(seed: u64, i: usize, k: usize, pat: Pat, n: usize) -> bed::Rec {
+        if pat == Pat::Equal {
+            return bed::Rec { chrom: "chr1".into(), start: 5, end: 5000, aux: vec!["v".to_string(); k] };
+        }
+        let x = mix(seed ^ (i as u64) << 3);
+        let start = x >> (x % 60);
+        bed::Rec { chrom: format!("chr{}", x % 23), start, end: start.saturating_add(x % 1000), aux: (0..k).map(|j| if j == 2 { ["+", "-", "."][(x % 3) as usize].to_string() } else { val(pat, x, i * k + j, n * k) }).collect() }
+    }
+
+    fn gff_small(seed: u64, i: usize, pat: Pat, n: usize, d: Dialect) -> gff::Rec {
+        let x = mix(seed ^ (i as u64) << 5);
+        let nk = if pat == Pat::Equal { 1 } else { (x % 4) as usize };
+        let attrs = (0..nk).map(|j| (format!("k{}", j), (0..1 + ((x >> 8) as usize + j) % 2).map(|l| if d == Dialect::GFF3 && l == 1 && pat == Pat::Random { "two words".to_string() } else { val(pat, x ^ j as u64, i + l, n + 2) }).collect())).collect();
+        let start = if pat == Pat::Equal { 7 } else { x >> (x % 60) };
+        gff::Rec {
+            seqname: if pat == Pat::Equal { "chr1".into() } else { format!("chr{}", x % 23) },
+            source: "src".into(),
+            feature_type: ["gene", "exon", "CDS"][(x % 3) as usize].into(),
+            start,
+            end: start.saturating_add(x % 5000),
+            score: [".", "50", "0.5"][((x >> 4) % 3) as usize].into(),
+            strand: ["+", "-", ".", "?"][((x >> 6) % 4) as usize].into(),
+            phase: [None, Some(0), Some(1), Some(2)][((x >> 9) % 4) as usize],
+            attrs,
+        }
+    }
+
+    // ---- BED through the library
+
+    fn bed_build(r: &bed::Rec, setters: bool) -> lbed::Record {
+        let mut b = lbed::Record::new();
+        b.set_chrom(&r.chrom);
+        b.set_start(r.start);
+        b.set_end(r.end);
+        for (i, a) in r.aux.iter().enumerate() {
+            if setters && i == 0 {
+                b.set_name(a);
+            } else if setters && i == 1 {
+                b.set_score(a);
+            } else {
+                b.push_aux(a);
+            }
+        }
+        b
+    }
+
+    fn bed_write(recs: &Many<bed::Rec>, setters: bool, path: Option<&str>) -> Result<Vec<u8>, Stop> {
+        let mut buf = Vec::new();
+        macro_rules! emit {
+            ($w:expr) => {{
+                let mut w = $w;
+                for i in 0..recs.n {
+                    let r = recs.get(i);
+                    if let Err(e) = w.write(&bed_build(&r, setters)) {
+                        fail!("BED writer refused record #{} (chrom {}, {} aux columns): {}", i, exc(&r.chrom), r.aux.len(), e);
+                    }
+                }
+            }};
+        }
+        match path {
+            None => emit!(lbed::Writer::new(&mut buf)),
+            Some(p) => {
+                match lbed::Writer::to_file(p) {
+                    Ok(w) => emit!(w),
+                    Err(e) => fail!("bed::Writer::to_file({:?}) failed: {:?}", p, e),
+                }
+                buf = std::fs::read(p).map_err(|e| Stop::Fail(format!("the file {:?} written by bed::Writer::to_file cannot be read: {:?}", p, e)))?;
+            }
+        }
+        Ok(buf)
+    }
+
+    fn bed_same(got: &lbed::Record, exp: &bed::Rec) -> bool {
+        got.chrom() == exp.chrom && got.start() == exp.start && got.end() == exp.end && (0..exp.aux.len()).all(|j| got.aux(3 + j) == Some(exp.aux[j].as_str())) && got.aux(3 + exp.aux.len()).is_none()
+    }
+
+    fn bed_show(got: &lbed::Record) -> String {
+        let mut k = 0;
+        while got.aux(3 + k).is_some() {
+            k += 1;
+        }
+        format!("chrom={} start={} end={} {} aux columns [{}]", exc(got.chrom()), got.start(), got.end(), k, (0..k.min(4)).map(|j| exc(got.aux(3 + j).unwrap_or(""))).collect::<Vec<_>>().join(", "))
+    }
+
+    /// first difference between what was read and what was written
+    fn bed_diff(got: &lbed::Record, exp: &bed::Rec) -> String {
+        if got.chrom() != exp.chrom {
+            return format!("chrom read {} written {}", exc(got.chrom()), exc(&exp.chrom));
+        }
+        if got.start() != exp.start || got.end() != exp.end {
+            return format!("coordinates read {}..{} written {}..{}", got.start(), got.end(), exp.start, exp.end);
+        }
+        for (j, a) in exp.aux.iter().enumerate() {
+            if got.aux(3 + j) != Some(a.as_str()) {
+                return format!("aux column #{} (column {} of the line) read {:?} written {}", j, 3 + j, got.aux(3 + j).map(exc), exc(a));
+            }
+        }
+        format!("{} aux columns written, but aux({}) reads {:?}", exp.aux.len(), 3 + exp.aux.len(), got.aux(3 + exp.aux.len()).map(exc))
+    }
+
+    fn bed_show_exp(exp: &bed::Rec) -> String {
+        format!("chrom={} start={} end={} {} aux columns [{}]", exc(&exp.chrom), exp.start, exp.end, exp.aux.len(), exp.aux.iter().take(4).map(|a| exc(a)).collect::<Vec<_>>().join(", "))
+    }
+
+    /// reads `file` through `src` and demands exactly the expected records; `bad`: index of a line that must be Err
+    /// (then the other lines may be Err as well, but every Ok item must equal the record of its own line)
+    fn bed_expect(c: &LCase, file: &Rc<Vec<u8>>, path: Option<&str>, recs: &Many<bed::Rec>, bad: Option<usize>, case: &str) -> Result<usize, Stop> {
+        let mut oks = 0usize;
+        macro_rules! go {
+            ($rdr:expr) => {{
+                let mut rdr = $rdr;
+                let mut it = rdr.records();
+                for i in 0..recs.n {
+                    let exp = recs.get(i);
+                    match it.next() {
+                        None => fail!("{}: the BED reader ends after {} of {} records", case, i, recs.n),
+                        Some(Err(e)) => ensure!(bad.is_some(), "{}: record #{} ({}) reads back as error: {}", case, i, bed_show_exp(&exp), e),
+                        Some(Ok(got)) => {
+                            ensure!(bad != Some(i), "{}: the malformed line #{} is read as Ok: {}", case, i, bed_show(&got));
+                            ensure!(bed_same(&got, &exp), "{}: record #{} written as {} reads back as {}: {}", case, i, bed_show_exp(&exp), bed_show(&got), bed_diff(&got, &exp));
+                            oks += 1;
+                        }
+                    }
+                }
+                match it.next() {
+                    None => {}
+                    Some(x) => fail!("{}: an extra item follows the {} records: {:?}", case, recs.n, x.map(|r| bed_show(&r)).map_err(|e| e.to_string())),
+                }
+            }};
+        }
+        match c.src {
+            Src::Slice => go!(lbed::Reader::new(&file[..])),
+            Src::Cursor => go!(lbed::Reader::new(Cursor::new(file.to_vec()))),
+            Src::Chunked => go!(lbed::Reader::new(ChunkedReader::whole(file.clone(), &[c.n.clamp(1, u32::MAX as usize) as u32, 1, 7], None))),
+            Src::File => match lbed::Reader::from_file(path.unwrap_or("")) {
+                Ok(r) => go!(r),
+                Err(e) => fail!("{}: bed::Reader::from_file({:?}) failed on an existing file: {:?}", case, path, e),
+            },
+        }
+        Ok(oks)
+    }
+
+    // ---- GFF through the library
+
+    fn gff_build(r: &gff::Rec) -> lgff::Record {
+        let mut g = lgff::Record::new();
+        *g.seqname_mut() = r.seqname.clone();
+        *g.source_mut() = r.source.clone();
+        *g.feature_type_mut() = r.feature_type.clone();
+        *g.start_mut() = r.start;
+        *g.end_mut() = r.end;
+        *g.score_mut() = r.score.clone();
+        *g.strand_mut() = r.strand.clone();
+        *g.phase_mut() = lgff::Phase::from(r.phase);
+        for (k, vs) in &r.attrs {
+            for v in vs {
+                g.attributes_mut().insert(k.clone(), v.clone());
+            }
+        }
+        g
+    }
+
+    fn gff_write(d: Dialect, recs: &Many<gff::Rec>, path: Option<&str>) -> Result<Vec<u8>, Stop> {
+        let mut buf = Vec::new();
+        macro_rules! emit {
+            ($w:expr) => {{
+                let mut w = $w;
+                for i in 0..recs.n {
+                    let r = recs.get(i);
+                    if let Err(e) = w.write(&gff_build(&r)) {
+                        fail!("{:?} writer refused record #{} ({} keys): {}", d, i, r.attrs.len(), e);
+                    }
+                }
+            }};
+        }
+        match path {
+            None => emit!(lgff::Writer::new(&mut buf, gff_type(d))),
+            Some(p) => {
+                match lgff::Writer::to_file(p, gff_type(d)) {
+                    Ok(w) => emit!(w),
+                    Err(e) => fail!("gff::Writer::to_file({:?}) failed: {:?}", p, e),
+                }
+                buf = std::fs::read(p).map_err(|e| Stop::Fail(format!("the file {:?} written by gff::Writer::to_file cannot be read: {:?}", p, e)))?;
+            }
+        }
+        Ok(buf)
+    }
+
+    /// field-for-field comparison; attributes as key -> ordered value list; Err(text) names the first difference
+    fn gff_diff(got: &lgff::Record, exp: &gff::Rec) -> Option<String> {
+        let mut m = got.clone();
+        let phase: Option<u8> = {
+            let p: Result<Option<u8>, ()> = got.phase().clone().try_into();
+            p.unwrap_or(None)
+        };
+        let fixed = [("seqname", got.seqname() == exp.seqname), ("source", got.source() == exp.source), ("feature_type", got.feature_type() == exp.feature_type), ("start", *got.start() == exp.start), ("end", *got.end() == exp.end), ("score", *m.score_mut() == exp.score), ("strand", *m.strand_mut() == exp.strand), ("phase", phase == exp.phase)];
+        for (name, ok) in fixed {
+            if !ok {
+                return Some(format!("column {} differs (seqname read {}, written {}; start {} / {}; end {} / {}; phase {:?} / {:?})", name, exc(got.seqname()), exc(&exp.seqname), got.start(), exp.start, got.end(), exp.end, phase, exp.phase));
+            }
+        }
+        let nkeys = got.attributes().iter_all().count();
+        if nkeys != exp.attrs.len() {
+            return Some(format!("{} attribute keys read, {} written", nkeys, exp.attrs.len()));
+        }
+        for (k, vs) in &exp.attrs {
+            match got.attributes().get_vec(k) {
+                None => return Some(format!("key {} is missing", exc(k))),
+                Some(gv) => {
+                    if gv != vs {
+                        let p = gv.iter().zip(vs.iter()).position(|(a, b)| a != b).unwrap_or(gv.len().min(vs.len()));
+                        return Some(format!("key {}: {} values read, {} written; first difference at value #{}: read {:?}, written {:?}", exc(k), gv.len(), vs.len(), p, gv.get(p).map(|s| exc(s)), vs.get(p).map(|s| exc(s))));
+                    }
+                }
+            }
+        }
+        if *got != gff_build(exp) {
+            return Some("the record differs from the written record object (PartialEq)".into());
+        }
+        None
+    }
+
+    fn gff_expect(c: &LCase, file: &Rc<Vec<u8>>, path: Option<&str>, recs: &Many<gff::Rec>, bad: Option<usize>, case: &str) -> Result<usize, Stop> {
+        let mut oks = 0usize;
+        let t = gff_type(c.dialect);
+        macro_rules! go {
+            ($rdr:expr) => {{
+                let mut rdr = $rdr;
+                let mut it = rdr.records();
+                for i in 0..recs.n {
+                    let exp = recs.get(i);
+                    match it.next() {
+                        None => fail!("{}: the {:?} reader ends after {} of {} records", case, c.dialect, i, recs.n),
+                        Some(Err(e)) => ensure!(bad.is_some(), "{}: record #{} (seqname {}, {} keys) reads back as error: {}", case, i, exc(&exp.seqname), exp.attrs.len(), e),
+                        Some(Ok(got)) => {
+                            ensure!(bad != Some(i), "{}: the malformed line #{} is read as Ok (seqname {}, start {}, phase {:?})", case, i, exc(got.seqname()), got.start(), got.phase());
+                            if let Some(d) = gff_diff(&got, &exp) {
+                                fail!("{}: record #{} of {}: {}", case, i, recs.n, d);
+                            }
+                            oks += 1;
+                        }
+                    }
+                }
+                match it.next() {
+                    None => {}
+                    Some(x) => fail!("{}: an extra item follows the {} records: {:?}", case, recs.n, x.map(|r| r.seqname().to_string()).map_err(|e| e.to_string())),
+                }
+            }};
+        }
+        match c.src {
+            Src::Slice => go!(lgff::Reader::new(&file[..], t)),
+            Src::Cursor => go!(lgff::Reader::new(Cursor::new(file.to_vec()), t)),
+            Src::Chunked => go!(lgff::Reader::new(ChunkedReader::whole(file.clone(), &[c.n.clamp(1, u32::MAX as usize) as u32, 1, 7], None), t)),
+            Src::File => match lgff::Reader::from_file(path.unwrap_or(""), t) {
+                Ok(r) => go!(r),
+                Err(e) => fail!("{}: gff::Reader::from_file({:?}) failed on an existing file: {:?}", case, path, e),
+            },
+        }
+        Ok(oks)
+    }
+
+    /// lines of a written file (no field contains a line break, so '\n' separates records)
+    fn lines_of(bytes: &[u8]) -> Vec<&[u8]> {
+        let mut v: Vec<&[u8]> = bytes.split(|&b| b == b'\n').collect();
+        if v.last().map_or(false, |l| l.is_empty()) {
+            v.pop();
+        }
+        v
+    }
+
+    /// hand the written bytes to the reader: as they are, or stored at `path` for `Src::File`
+    fn stage(c: &LCase, bytes: Vec<u8>, path: &str, already_on_disk: bool) -> Result<Rc<Vec<u8>>, Stop> {
+        if c.src == Src::File && !already_on_disk {
+            std::fs::write(path, &bytes).map_err(|e| Stop::Fail(format!("harness: cannot write {:?}: {:?}", path, e)))?;
+        }
+        Ok(Rc::new(bytes))
+    }
+
+    pub fn check_large(c: &LCase) -> R {
+        let _published = publish(c);
+        ensure!(c.n >= 1, "harness: n = 0");
+        let mut tmp = TmpFiles::new("C13").map_err(|e| Stop::Fail(format!("harness: cannot create the temporary directory: {:?}", e)))?;
+        let case = format!("{:?}", c);
+        let n = c.n;
+        let (seed, pat, d) = (c.seed, c.pat, c.dialect);
+        let mut g = Sm::new(seed, 0xc13);
+        let mut pass = Pass::new(n >= 255);
+        pass.add(band_label(what_name(c.what), n as u64));
+        pass.add(intern(format!("scaled: {}", what_name(c.what))));
+        let path = tmp.path("rt");
+        let to_file = c.src == Src::File;
+        let wpath = if to_file { Some(path.as_str()) } else { None };
+        let is_gff = matches!(c.what, What::GffRecords | What::GffKeys | What::GffValues | What::GffValueLen | What::GffColLen) || (matches!(c.what, What::FileHist | What::BadLine | What::Comments) && c.aux % 2 == 1);
+        match c.what {
+            What::BedRecords | What::BedCols | What::BedValue => {
+                let recs: Many<bed::Rec> = match c.what {
+                    What::BedRecords => {
+                        let k = [0usize, 1, 3, 9][c.aux % 4];
+                        Many::new(n, Box::new(move |i| bed_small(seed, i, k, pat, n)))
+                    }
+                    What::BedCols => Many::new(3, Box::new(move |i| bed_small(seed ^ 0x55, i, n, pat, 3))),
+                    _ => {
+                        let (extra, utf8): (&'static [u8], bool) = [(&b" ,;='"[..], false), (&b"\""[..], false), (&b""[..], true), (&b"\"\"\" #"[..], false)][c.aux / 3 % 4];
+                        let long = text(n, seed, extra, utf8);
+                        let col = c.aux % 3;
+                        Many::new(
+                            3,
+                            Box::new(move |i| {
+                                let mut r = bed_small(seed, i, 3, Pat::Random, 3);
+                                if i == 1 {
+                                    match col {
+                                        0 => r.chrom = long.clone(),
+                                        1 => r.aux[0] = long.clone(),
+                                        _ => r.aux[2] = long.clone(),
+                                    }
+                                }
+                                r
+                            }),
+                        )
+                    }
+                };
+                let written = bed_write(&recs, c.aux % 2 == 1 && c.what != What::BedCols, wpath)?;
+                let file = stage(c, written, &path, to_file)?;
+                bed_expect(c, &file, Some(&path), &recs, None, &case)?;
+                pass.add("BED");
+            }
+            What::GffRecords | What::GffKeys | What::GffValues | What::GffValueLen | What::GffColLen => {
+                let recs: Many<gff::Rec> = match c.what {
+                    What::GffRecords => Many::new(n, Box::new(move |i| gff_small(seed, i, pat, n, d))),
+                    What::GffKeys => Many::new(
+                        2,
+                        Box::new(move |i| {
+                            let mut r = gff_small(seed, i, Pat::Random, 2, d);
+                            if i == 0 {
+                                r.attrs = (0..n).map(|j| (format!("k{}", j), (0..1 + (j % 7 == 3) as usize).map(|l| val(pat, seed, j + l, n + 1)).collect())).collect();
+                            }
+                            r
+                        }),
+                    ),
+                    What::GffValues => Many::new(
+                        2,
+                        Box::new(move |i| {
+                            let mut r = gff_small(seed, i, Pat::Random, 2, d);
+                            if i == 0 {
+                                r.attrs = vec![("first".to_string(), vec!["a".to_string(), "b".to_string()]), ("many".to_string(), (0..n).map(|j| val(pat, seed, j, n)).collect()), ("last".to_string(), vec!["z".to_string()])];
+                            }
+                            r
+                        }),
+                    ),
+                    What::GffValueLen => {
+                        let inner: &'static [u8] = if d == Dialect::GFF3 { b"  '\"" } else { b",='\"" };
+                        let long = text(n, seed, if c.aux / 3 % 2 == 0 { b"" } else { inner }, c.aux / 6 % 2 == 1);
+                        let sel = c.aux % 3;
+                        Many::new(
+                            2,
+                            Box::new(move |i| {
+                                let mut r = gff_small(seed, i, Pat::Random, 2, d);
+                                if i == 0 {
+                                    r.attrs = match sel {
+                                        0 => vec![("Note".to_string(), vec![long.clone()]), ("ID".to_string(), vec!["x".to_string()])],
+                                        1 => vec![("Note".to_string(), vec!["short".to_string(), long.clone(), "after".to_string()])],
+                                        _ => vec![(text(n, seed, b"", false).replace(['.', ':', '-'], "_"), vec!["value_of_a_long_key".to_string()])],
+                                    };
+                                }
+                                r
+                            }),
+                        )
+                    }
+                    _ => {
+                        let long = text(n, seed, if c.aux / 3 % 2 == 0 { b"" } else { b" ,;=' \"" }, c.aux / 6 % 2 == 1);
+                        let sel = c.aux % 3;
+                        Many::new(
+                            3,
+                            Box::new(move |i| {
+                                let mut r = gff_small(seed, i, Pat::Random, 3, d);
+                                if i == 1 {
+                                    match sel {
+                                        0 => r.seqname = long.clone(),
+                                        1 => r.source = long.clone(),
+                                        _ => r.feature_type = long.clone(),
+                                    }
+                                }
+                                r
+                            }),
+                        )
+                    }
+                };
+                let written = gff_write(d, &recs, wpath)?;
+                let file = stage(c, written, &path, to_file)?;
+                gff_expect(c, &file, Some(&path), &recs, None, &case)?;
+            }
+            What::Comments => {
+                // n comment lines between a few records, or one comment line of n bytes; never as the last line
+                let nrec = 6usize;
+                let (written, brecs, grecs) = if is_gff {
+                    let r: Many<gff::Rec> = Many::new(nrec, Box::new(move |i| gff_small(seed, i, Pat::Random, nrec, d)));
+                    (gff_write(d, &r, None)?, None, Some(r))
+                } else {
+                    let r: Many<bed::Rec> = Many::new(nrec, Box::new(move |i| bed_small(seed, i, 3, Pat::Random, nrec)));
+                    (bed_write(&r, false, None)?, Some(r), None)
+                };
+                let lines = lines_of(&written);
+                ensure!(lines.len() == nrec, "harness: {} lines for {} records", lines.len(), nrec);
+                let mut file = Vec::new();
+                let count_mode = c.aux / 2 % 2 == 0;
+                for (i, l) in lines.iter().enumerate() {
+                    let ncom = if count_mode {
+                        // all n comment lines in front of one record, or spread
+                        if c.aux / 4 % 2 == 0 {
+                            if i == 2 {
+                                n
+                            } else {
+                                0
+                            }
+                        } else {
+                            n / nrec + (i < n % nrec) as usize
+                        }
+                    } else {
+                        (i == 3) as usize
+                    };
+                    for j in 0..ncom {
+                        file.push(b'#');
+                        if count_mode {
+                            file.extend_from_slice(["", "#gff-version 3", "chr1\t5\t10", " \"quoted", "x"][(j + g.below(2) as usize) % 5].as_bytes());
+                        } else {
+                            file.extend_from_slice(text(n.saturating_sub(1), seed, b"\t \"#", c.aux / 4 % 2 == 1).as_bytes());
+                        }
+                        file.push(b'\n');
+                    }
+                    file.extend_from_slice(l);
+                    file.push(b'\n');
+                }
+                let file = stage(c, file, &path, false)?;
+                match (&brecs, &grecs) {
+                    (Some(r), _) => bed_expect(c, &file, Some(&path), r, None, &case)?,
+                    (_, Some(r)) => gff_expect(c, &file, Some(&path), r, None, &case)?,
+                    _ => 0,
+                };
+                pass.add(if count_mode { "many comment lines" } else { "one long comment line" });
+            }
+            What::FileHist => {
+                // ONE path: n records, then 2, then n/5, then 1; each generation written by Writer::to_file and read by Reader::from_file
+                let cc = LCase { src: Src::File, ..c.clone() };
+                for (step, m) in [n, 2, n / 5 + 3, 1].into_iter().enumerate() {
+                    let scase = format!("{} step {} of the history on one path ({} records)", case, step, m);
+                    let sseed = seed ^ (step as u64) << 20;
+                    if is_gff {
+                        let r: Many<gff::Rec> = Many::new(m, Box::new(move |i| gff_small(sseed, i, pat, m, d)));
+                        let written = gff_write(d, &r, Some(&path))?;
+                        gff_expect(&cc, &Rc::new(written.clone()), Some(&path), &r, None, &scase)?;
+                        // and the bytes on disk are exactly one generation (in-memory reader over what the file holds)
+                        gff_expect(&LCase { src: Src::Slice, ..c.clone() }, &Rc::new(written), None, &r, None, &scase)?;
+                    } else {
+                        let k = [3usize, 0, 9, 1][step];
+                        let r: Many<bed::Rec> = Many::new(m, Box::new(move |i| bed_small(sseed, i, k, pat, m)));
+                        let written = bed_write(&r, step % 2 == 1, Some(&path))?;
+                        bed_expect(&cc, &Rc::new(written.clone()), Some(&path), &r, None, &scase)?;
+                        bed_expect(&LCase { src: Src::Slice, ..c.clone() }, &Rc::new(written), None, &r, None, &scase)?;
+                    }
+                }
+                pass.add("file history: long, short, medium, single record on one path");
+            }
+            What::BadLine => {
+                // line #n (0-based) of a file of n + 20 records is malformed
+                let m = n + 20;
+                let kind = c.aux / 2 % 6;
+                let bad_num = ["abc", "-1", "1.5", "", "18446744073709551616", " 5"][kind];
+                if is_gff {
+                    let r: Many<gff::Rec> = Many::new(m, Box::new(move |i| gff_small(seed, i, Pat::Random, m, d)));
+                    let written = gff_write(d, &r, None)?;
+                    let mut lines: Vec<Vec<u8>> = lines_of(&written).into_iter().map(|l| l.to_vec()).collect();
+                    ensure!(lines.len() == m, "harness: {} lines for {} records", lines.len(), m);
+                    let mut cols = cols_of(&lines[n]);
+                    ensure!(cols.len() == 9, "harness: GFF line with {} columns", cols.len());
+                    match c.aux / 12 % 4 {
+                        0 => cols[3] = bad_num.as_bytes().to_vec(),
+                        1 => cols[4] = bad_num.as_bytes().to_vec(),
+                        2 => cols[7] = ["3", "255", "x", "-1", "256", "9"][kind].as_bytes().to_vec(),
+                        _ => {
+                            cols.remove(5);
+                        }
+                    }
+                    lines[n] = join_cols(&cols);
+                    let file = stage(c, lines.join(&b'\n'), &path, false)?;
+                    let oks = gff_expect(c, &file, Some(&path), &r, Some(n), &case)?;
+                    pass.add_if(oks + 1 == m, "all other records Ok");
+                } else {
+                    let r: Many<bed::Rec> = Many::new(m, Box::new(move |i| bed_small(seed, i, 3, Pat::Random, m)));
+                    let written = bed_write(&r, false, None)?;
+                    let mut lines: Vec<Vec<u8>> = lines_of(&written).into_iter().map(|l| l.to_vec()).collect();
+                    ensure!(lines.len() == m, "harness: {} lines for {} records", lines.len(), m);
+                    let mut cols = cols_of(&lines[n]);
+                    match c.aux / 12 % 3 {
+                        0 => cols[1] = bad_num.as_bytes().to_vec(),
+                        1 => cols[2] = bad_num.as_bytes().to_vec(),
+                        _ => {
+                            // fewer than three columns
+                            cols.truncate(2);
+                        }
+                    }
+                    lines[n] = join_cols(&cols);
+                    let file = stage(c, lines.join(&b'\n'), &path, false)?;
+                    let oks = bed_expect(c, &file, Some(&path), &r, Some(n), &case)?;
+                    pass.add_if(oks + 1 == m, "all other records Ok");
+                }
+                pass.add("malformed line reported as Err");
+            }
+        }
+        pass.add(if is_gff {
+            match d {
+                Dialect::GFF3 => "dialect GFF3",
+                Dialect::GFF2 => "dialect GFF2",
+                Dialect::GTF2 => "dialect GTF2",
+            }
+        } else {
+            "BED"
+        });
+        pass.add(match c.src {
+            Src::Slice => "source: slice",
+            Src::Cursor => "source: Cursor",
+            Src::Chunked => "source: chunked double",
+            Src::File => "source: Writer::to_file + Reader::from_file",
+        });
+        pass.add(match c.pat {
+            Pat::Random => "random values",
+            Pat::Equal => "all values equal",
+            Pat::Ascending => "ascending values",
+            Pat::Descending => "descending values",
+        });
+        Ok(pass)
+    }
+
+    // ---- enumeration and random strategy
+
+    fn top(what: What, t: Tier) -> u64 {
+        match (what, t) {
+            (What::BedValue, _) | (What::GffValueLen, _) | (What::GffColLen, _) | (What::Comments, _) => 1 << 20,
+            (_, Tier::Quick) => 131_072,
+            (What::FileHist, Tier::Thorough) => 1 << 19,
+            _ => 1 << 20,
+        }
+    }
+
+    fn grid(whats: &[What], t: Tier) -> Vec<LCase> {
+        let mut out = Vec::new();
+        let mut k = 0usize;
+        for seed in 1..=6u64 {
+            for &what in whats {
+                // quick: one seed; thorough: two seeds for the counts (microseconds per unit), six for the lengths
+                let nseeds = match (t, what) {
+                    (Tier::Quick, _) => 1,
+                    (_, What::BedValue) | (_, What::GffValueLen) | (_, What::GffColLen) | (_, What::Comments) => 6,
+                    _ => 2,
+                };
+                if seed > nseeds {
+                    continue;
+                }
+                let mut values = ladder(top(what, t));
+                if seed == 1 {
+                    values.splice(0..0, [1u64, 2, 63, 64, 65]);
+                }
+                for &n in &values {
+                    let heavy = matches!(what, What::BedRecords | What::GffRecords | What::FileHist | What::BadLine | What::GffValues | What::GffKeys | What::BedCols) && n > 60_000;
+                    let reps = match t {
+                        Tier::Thorough if n <= 70_001 => 6,
+                        Tier::Thorough if heavy => 1,
+                        Tier::Thorough => 2,
+                        Tier::Quick if heavy => 1,
+                        Tier::Quick => 2,
+                    };
+                    for _ in 0..reps {
+                        k += 1;
+                        out.push(LCase {
+                            what,
+                            n: n as usize,
+                            aux: k,
+                            pat: [Pat::Random, Pat::Equal, Pat::Ascending, Pat::Descending][(k / 2) % 4],
+                            seed: seed.wrapping_mul(0x9e37_79b9) ^ (k as u64) << 11,
+                            dialect: [Dialect::GFF3, Dialect::GFF2, Dialect::GTF2][k % 3],
+                            src: if what == What::FileHist { Src::File } else { [Src::Slice, Src::Chunked, Src::File, Src::Cursor][(k / 3) % 4] },
+                        });
+                    }
+                }
+            }
+        }
+        out.sort_by_key(|c| c.n);
+        out
+    }
+
+    pub fn enum_bed(t: Tier) -> Box<dyn Iterator<Item = LCase>> {
+        Box::new(grid(&[What::BedRecords, What::BedCols, What::BedValue], t).into_iter())
+    }
+    pub fn enum_gff_records(t: Tier) -> Box<dyn Iterator<Item = LCase>> {
+        Box::new(grid(&[What::GffRecords], t).into_iter())
+    }
+    pub fn enum_gff_attrs(t: Tier) -> Box<dyn Iterator<Item = LCase>> {
+        Box::new(grid(&[What::GffKeys, What::GffValues], t).into_iter())
+    }
+    pub fn enum_gff_len(t: Tier) -> Box<dyn Iterator<Item = LCase>> {
+        Box::new(grid(&[What::GffValueLen, What::GffColLen, What::Comments], t).into_iter())
+    }
+    pub fn enum_files(t: Tier) -> Box<dyn Iterator<Item = LCase>> {
+        Box::new(grid(&[What::FileHist], t).into_iter())
+    }
+    pub fn enum_badline(t: Tier) -> Box<dyn Iterator<Item = LCase>> {
+        Box::new(grid(&[What::BadLine], t).into_iter())
+    }
+
+    pub fn reach(whats: &[What], extra: &[&'static str]) -> &'static [&'static str] {
+        let mut v: Vec<&'static str> = Vec::new();
+        for &w in whats {
+            for &c in CENTRES {
+                if c <= top(w, Tier::Quick) {
+                    v.push(band_label(what_name(w), c));
+                }
+            }
+        }
+        v.extend_from_slice(extra);
+        Box::leak(v.into_boxed_slice())
+    }
+
+    pub fn strat_random(_t: Tier) -> BoxedStrategy<LCase> {
+        let what = proptest::sample::select(vec![What::BedRecords, What::BedCols, What::BedValue, What::Comments, What::GffRecords, What::GffKeys, What::GffValues, What::GffValueLen, What::GffColLen, What::FileHist, What::BadLine]);
+        let n = prop_oneof![
+            3 => (proptest::sample::select(vec![256u64, 512, 1024, 4096, 8192, 16384, 32768, 65536, 70_000]), 0u64..=6).prop_map(|(c, d)| c + d - 3),
+            2 => (8u32..=16, any::<u16>()).prop_map(|(bits, r)| (1u64 << bits) + (r as u64 * ((1u64 << bits) - 1) >> 16)),
+            1 => 1u64..=300,
+        ];
+        (what, n, 0usize..10_000, proptest::sample::select(vec![Pat::Random, Pat::Equal, Pat::Ascending, Pat::Descending]), any::<u64>(), proptest::sample::select(vec![Dialect::GFF3, Dialect::GFF2, Dialect::GTF2]), proptest::sample::select(vec![Src::Slice, Src::Cursor, Src::Chunked, Src::File]))
+            .prop_map(|(what, n, aux, pat, seed, dialect, src)| {
+                // the parameters that cost microseconds per unit stay below ~20 000 in the random sub-check (the grid covers the rest)
+                let n = if matches!(what, What::GffRecords | What::FileHist | What::BadLine | What::GffKeys | What::BedRecords) { n.min(20_003) } else { n };
+                LCase { what, n: n as usize, aux, pat, seed, dialect, src: if what == What::FileHist { Src::File } else { src } }
+            })
+            .boxed()
+    }
+}
+
 pub fn property() -> Property {
     Property {
         id: "C13",
-        rule: "roundtrip: 1-8 BED records sharing k in 0..=9 auxiliary columns (text from a pool with spaces, commas, quotes, ';=', empty and non-ASCII strings; first column never starting with '#'; coordinates log-uniform over all of u64), resp. 1-5 GFF records per dialect {GFF3,GFF2,GTF2} with 0-4 distinct keys over [A-Za-z0-9_]+ and 1-3 values per key over text avoiding the dialect's three delimiters, tab, newline and not starting/ending with a quote or space, score in {'.', integer, decimal}, strand in {+,-,.,?}, phase in {.,0,1,2}; written with the library writer, '#' comment lines interleaved, read back and compared field for field (attributes as key -> ordered value list, plus record equality and accessors). inject: one line of a written file is replaced by a malformed one (bad coordinate of six kinds, dropped column, added column on one or every line, invalid phase). corrupt: 0-3 byte edits (replace/insert/delete) and truncation at one offset or at every offset. Oracle of inject/corrupt = independent strict line parser (split on newline, skip empty and '#' lines, split on tab, str::parse::<u64>, GFF exactly 9 columns, BED >= 3): no panic, one item per data line within the item cap, every Ok record equals the strict parse of its own line (a malformed line read as Ok is a violation), a file whose data lines differ in width yields at least one Err; the GFF attribute multimap is compared whenever the ninth column is an untouched one. GFF files for inject/corrupt take the eight fixed columns from the library writer and the ninth column from the harness (deterministic key order). Non-trivial: roundtrip BED k>=2 / GFF with a multi-valued attribute; inject: at least one data line; corrupt: the file differs from the written one and still has a data line (every-prefix cases: non-empty file). Distinct = distinct serialised case.",
+        rule: "roundtrip: 1-8 BED records sharing k in 0..=9 auxiliary columns (text from a pool with spaces, commas, quotes, ';=', empty and non-ASCII strings; first column never starting with '#'; coordinates log-uniform over all of u64), resp. 1-5 GFF records per dialect {GFF3,GFF2,GTF2} with 0-4 distinct keys over [A-Za-z0-9_]+ and 1-3 values per key over text avoiding the dialect's three delimiters, tab, newline and not starting/ending with a quote or space, score in {'.', integer, decimal}, strand in {+,-,.,?}, phase in {.,0,1,2}; written with the library writer, '#' comment lines interleaved, read back and compared field for field (attributes as key -> ordered value list, plus record equality and accessors). inject: one line of a written file is replaced by a malformed one (bad coordinate of six kinds, dropped column, added column on one or every line, invalid phase). corrupt: 0-3 byte edits (replace/insert/delete) and truncation at one offset or at every offset. Oracle of inject/corrupt = independent strict line parser (split on newline, skip empty and '#' lines, split on tab, str::parse::<u64>, GFF exactly 9 columns, BED >= 3): no panic, one item per data line within the item cap, every Ok record equals the strict parse of its own line (a malformed line read as Ok is a violation), a file whose data lines differ in width yields at least one Err; the GFF attribute multimap is compared whenever the ninth column is an untouched one. GFF files for inject/corrupt take the eight fixed columns from the library writer and the ninth column from the harness (deterministic key order). Non-trivial: roundtrip BED k>=2 / GFF with a multi-valued attribute; inject: at least one data line; corrupt: the file differs from the written one and still has a data line (every-prefix cases: non-empty file). large-*: parameter-only cases push ONE size parameter across the ladder 255..257 ... 131071..131073 (lengths up to 2^20+-1; counts up to 2^20+-1 in the thorough tier): number of BED records, number of auxiliary BED columns, length of one BED column value (plain, with quotes, multi-byte), number of comment lines / length of one comment line, number of GFF records, number of attribute keys, number of values of one key (all-equal, ascending, descending, random), length of one attribute value or key, length of a GFF text column, histories on one path (Writer::to_file / Reader::from_file for BED and the three GFF dialects: long, 2 records, medium, 1 record), index of the one malformed line (bad number of six kinds, invalid phase, wrong column count) in a file of n+20 records (that item must be Err, every Ok item must equal the record of its own line). Readers over a slice, a Cursor, the chunked double (pieces of n bytes) and a file. Oracle = the generated records, compared streaming field for field (attributes: number of keys and the ordered value list of every key, plus record equality). Non-trivial (large) = scaled value >= 255. Distinct = distinct serialised case.",
         assumptions: &[
             "keys are [A-Za-z0-9_]+ and distinct per record; values are non-empty, avoid the dialect's key/value, pair and value delimiters (GFF3 '=' ';' ','; GFF2/GTF2 ' ' ';' NUL), tab, CR, LF and do not start or end with a quote or space (the reader trims quotes by design)",
             "no column contains tab, CR or LF; the first column does not start with '#' (comment syntax)",
@@ -1381,6 +2194,55 @@ pub fn property() -> Property {
                 check: gff::check_corrupt,
                 must_reach: &[
                     "dialect GFF3", "dialect GFF2", "dialect GTF2", "truncated", "truncated inside a line", "every prefix of the file", "byte edits", "a malformed data line (read as Err)", "Ok and Err records in one file", "attributes of an untouched ninth column compared", "Ok record with a touched ninth column (fixed columns compared)", "invalid UTF-8", "quote/CR byte: only no-panic and termination checked",
+                ],
+                watch: true,
+            }),
+            Box::new(ExhSub {
+                name: "C13/large-bed",
+                enumerate: large::enum_bed,
+                check: large::check_large,
+                must_reach: large::reach(&[large::What::BedRecords, large::What::BedCols, large::What::BedValue], &["source: slice", "source: Cursor", "source: chunked double", "source: Writer::to_file + Reader::from_file", "all values equal", "ascending values"]),
+            }),
+            Box::new(ExhSub {
+                name: "C13/large-gff-records",
+                enumerate: large::enum_gff_records,
+                check: large::check_large,
+                must_reach: large::reach(&[large::What::GffRecords], &["dialect GFF3", "dialect GFF2", "dialect GTF2", "source: Writer::to_file + Reader::from_file", "all values equal"]),
+            }),
+            Box::new(ExhSub {
+                name: "C13/large-gff-attrs",
+                enumerate: large::enum_gff_attrs,
+                check: large::check_large,
+                must_reach: large::reach(&[large::What::GffKeys, large::What::GffValues], &["dialect GFF3", "dialect GFF2", "dialect GTF2", "source: Writer::to_file + Reader::from_file", "all values equal", "ascending values", "descending values"]),
+            }),
+            Box::new(ExhSub {
+                name: "C13/large-gff-len",
+                enumerate: large::enum_gff_len,
+                check: large::check_large,
+                must_reach: large::reach(&[large::What::GffValueLen, large::What::GffColLen, large::What::Comments], &["dialect GFF3", "dialect GFF2", "dialect GTF2", "BED", "many comment lines", "one long comment line", "source: chunked double"]),
+            }),
+            Box::new(ExhSub {
+                name: "C13/large-files",
+                enumerate: large::enum_files,
+                check: large::check_large,
+                must_reach: large::reach(&[large::What::FileHist], &["file history: long, short, medium, single record on one path", "BED", "dialect GFF3", "dialect GFF2", "dialect GTF2"]),
+            }),
+            Box::new(ExhSub {
+                name: "C13/large-badline",
+                enumerate: large::enum_badline,
+                check: large::check_large,
+                must_reach: large::reach(&[large::What::BadLine], &["malformed line reported as Err", "all other records Ok", "BED", "dialect GFF3", "dialect GFF2", "dialect GTF2"]),
+            }),
+            Box::new(PropSub {
+                name: "C13/large-random",
+                quick: 1_200,
+                thorough: 24_000,
+                shards_quick: 8,
+                shards_thorough: 16,
+                strat: large::strat_random,
+                check: large::check_large,
+                must_reach: &[
+                    "scaled: number of BED records", "scaled: number of auxiliary BED columns", "scaled: length of a BED column value", "scaled: comment lines (count / length)", "scaled: number of GFF records", "scaled: number of attribute keys", "scaled: number of values of one key", "scaled: length of an attribute value / key", "scaled: length of a GFF text column", "scaled: file history: records of the long file", "scaled: index of the malformed line",
                 ],
                 watch: true,
             }),
